@@ -175,4 +175,63 @@ Proof.
   - apply andb_prop in H. destruct H as [Ha Hacc]. destruct (rok_asset a Ha) as [R _]. destruct (rok_acc acc Hacc) as [R2 _]. eok.
   - eok.
 Qed.
+
+(* ---------- NeededBalances: the (account, monetary/asset) resource pairs denote the keys Sem tracks ---------- *)
+Lemma needed_source :
+  (forall s isAll r, chk_source te isAll s = Some r ->
+     Forall Pr (gsrc_needed ve s) /\ map (denote e) (gsrc_needed ve s) = map (fun a => XV (VAccount a)) (src_needed e s)) /\
+  (forall l isAll em r, chk_sources te isAll l em = Some r ->
+     Forall Pr (gsrcs_needed ve l) /\ map (denote e) (gsrcs_needed ve l) = map (fun a => XV (VAccount a)) (srcs_needed e l)).
+Proof.
+  apply source_mutind.
+  - intros a o isAll r H. simpl in H. destruct (chk_acc te a) eqn:Ea; [|discriminate]. destruct (rok_acc a Ea) as [R _].
+    pose proof (denote_acc te e ve Hcons Hve a Ea) as Hd. simpl.
+    destruct o as [|m|]; try (split; [constructor|reflexivity]);
+      (destruct (is_world a); [split; [constructor|reflexivity]|]); simpl; rewrite Hd; (split; [repeat constructor; assumption|reflexivity]).
+  - intros m s IH isAll r H. simpl in H. destruct (chk_source te false s) as [r0|] eqn:Es; [|discriminate]. simpl. apply (IH _ _ Es).
+  - intros l IH isAll r H. simpl in H. destruct l as [|s0 l0] eqn:El; [discriminate|]. rewrite <- El in *. simpl. apply (IH _ _ _ H).
+  - intros. simpl. split; [constructor|reflexivity].
+  - intros s IHs l IHl isAll em r H. simpl in H. destruct (chk_source te isAll s) as [[em1 fb]|] eqn:E; [|discriminate].
+    destruct (overlap em1 em); [discriminate|]. simpl. destruct (IHs _ _ E) as [A1 A2].
+    assert (Forall Pr (gsrcs_needed ve l) /\ map (denote e) (gsrcs_needed ve l) = map (fun a => XV (VAccount a)) (srcs_needed e l)) as [B1 B2].
+    { destruct l as [|s2 l2]; [split; [constructor|reflexivity]|]. destruct (is_some fb); [discriminate|]. apply (IHl _ _ _ H). }
+    split; [apply Forall_app; split; assumption|]. rewrite !map_app, A2, B2. reflexivity.
+Qed.
+
+Definition pair_den (an : rdesc * rdesc) : vval * vval := (denote e (fst an), denote e (snd an)).
+
+Lemma needed_stmt s : chk_stmt te s = true ->
+  Forall (fun an => Pr (fst an) /\ Pr (snd an)) (gstmt_needed ve s) /\
+  map pair_den (gstmt_needed ve s) =
+  map (fun k => (XV (VAccount (fst k)), match s with
+                                        | Send m _ _ => XV (VMonetary (fst (leaf_value e m)) (snd (leaf_value e m)))
+                                        | _ => XV (VAsset (snd k)) end)) (stmt_needed e s).
+Proof.
+  assert (Hmap : forall (l : list rdesc) (la : list string) (rm : rdesc) (vm : vval) (sa : string), Forall Pr l -> Pr rm -> denote e rm = vm ->
+            map (denote e) l = map (fun a => XV (VAccount a)) la ->
+            Forall (fun an => Pr (fst an) /\ Pr (snd an)) (map (fun a => (a, rm)) l) /\
+            map pair_den (map (fun a => (a, rm)) l) = map (fun k : key => (XV (VAccount (fst k)), vm)) (map (fun a => (a, sa)) la)).
+  { induction l as [|r tl IH]; intros la rm vm sa Hf Hrm Hd Hm; destruct la as [|a la']; simpl in Hm; try discriminate; simpl; [split; [constructor|reflexivity]|].
+    injection Hm as Ha Hm'. destruct (IH la' rm vm sa (Forall_inv_tail Hf) Hrm Hd Hm') as [I1 I2]. split.
+    - constructor; [split; [apply (Forall_inv Hf)|assumption]|assumption].
+    - unfold pair_den at 1. simpl. rewrite Ha, Hd, I2. reflexivity. }
+  destruct s as [m vs d|a src d|key v|a key v|m a|a acc|]; simpl; intros H; try (split; [constructor|reflexivity]).
+  - apply andb_prop in H. destruct H as [H Hd]. apply andb_prop in H. destruct H as [Hm Hvs].
+    pose proof (rok_mon_res m Hm) as Hr. pose proof (denote_mon_res te e ve Hcons Hve m Hm) as Hdm.
+    destruct vs as [src|l]; simpl in Hvs.
+    + destruct (chk_source te false src) as [r0|] eqn:Es; [|discriminate]. destruct (proj1 needed_source _ _ _ Es) as [A1 A2].
+      simpl. apply (Hmap _ _ _ _ (mon_asset e m) A1 Hr Hdm A2).
+    + apply andb_prop in Hvs. destruct Hvs as [_ Hss]. simpl.
+      assert (Forall Pr (flat_map (fun ps => gsrc_needed ve (snd ps)) l) /\
+              map (denote e) (flat_map (fun ps => gsrc_needed ve (snd ps)) l) = map (fun a => XV (VAccount a)) (flat_map (fun ps => src_needed e (snd ps)) l)) as [A1 A2].
+      { induction l as [|ps tl IH]; [split; [constructor|reflexivity]|]. simpl in Hss. apply andb_prop in Hss. destruct Hss as [H1 H2].
+        destruct (chk_source te false (snd ps)) as [r0|] eqn:Es; [|discriminate]. destruct (proj1 needed_source _ _ _ Es) as [B1 B2].
+        destruct (IH H2) as [C1 C2]. simpl. split; [apply Forall_app; split; assumption|]. rewrite !map_app, B2, C2. reflexivity. }
+      apply (Hmap _ _ _ _ (mon_asset e m) A1 Hr Hdm A2).
+  - apply andb_prop in H. destruct H as [H Hd]. apply andb_prop in H. destruct H as [Ha Hs].
+    destruct (chk_source te true src) as [r0|] eqn:Es; [|discriminate]. destruct (rok_asset a Ha) as [R _].
+    destruct (proj1 needed_source _ _ _ Es) as [A1 A2].
+    destruct (Hmap _ _ _ _ (eval_asset e a) A1 R (denote_asset te e ve Hcons Hve a Ha) A2) as [I1 I2]. split; [assumption|].
+    rewrite I2, !map_map. reflexivity.
+Qed.
 End Wf.
